@@ -54,20 +54,20 @@ theorem parseLoop_nil : parseLoop [] = ([], [], Status.more) := by
 def Blk (b : Bytes) : Prop := WellFormedTlv b ∧ b.length ≤ maxPkt
 
 theorem maxPkt_small : maxPkt < 4611686018427387904 := by decide
+theorem maxPkt_lt_cap : maxPkt < cap := by decide
+theorem maxPkt_pos : 0 < maxPkt := by decide
 
 /-- a complete block at the front of the unread region is delivered and parsing continues -/
 theorem parseLoop_block (b u' : Bytes) (hb : Blk b) :
     parseLoop (b ++ u') = (b :: (parseLoop u').1, (parseLoop u').2.1, (parseLoop u').2.2) := by
   obtain ⟨⟨typ, v, htyp, rfl⟩, hlen⟩ := hb
-  have hvlen : v.length < 4611686018427387904 := by
-    have := maxPkt_small; simp at hlen; omega
-  have hv64 : v.length < 2 ^ 64 := by omega
+  have hvlen : v.length ≤ maxPkt := by simp at hlen; omega
+  have hv64 : v.length < 2 ^ 64 := by have := maxPkt_small; omega
+  have hcap : ¬ v.length > cap := by have := maxPkt_lt_cap; omega
   have e1 : decTL (encTL typ ++ (encTL v.length ++ (v ++ u'))) = some (typ, encTL v.length ++ (v ++ u')) :=
     decTL_encTL typ htyp _
   have e2 : decTL (encTL v.length ++ (v ++ u')) = some (v.length, v ++ u') :=
     decTL_encTL v.length hv64 _
-  have hsz : tlvSize typ v.length = ((tlLen typ + tlLen v.length + v.length : Nat) : Int) :=
-    tlvSize_exact typ v.length hvlen
   have hblen : (encTL typ ++ (encTL v.length ++ v)).length = tlLen typ + tlLen v.length + v.length := by
     simp [encTL_length]; omega
   simp only [List.append_assoc]
@@ -80,15 +80,10 @@ theorem parseLoop_block (b u' : Bytes) (hb : Blk b) :
     · rename_i h2; rw [e2] at h2; simp at h2
     · rename_i l' r2 h2
       rw [e2] at h2; simp at h2; obtain ⟨rfl, rfl⟩ := h2
-      have hp := tlLen_pos typ
-      simp only [hsz]
-      have hge : ((encTL typ ++ (encTL v.length ++ (v ++ u'))).length : Int) ≥ ((tlLen typ + tlLen v.length + v.length : Nat) : Int) := by
+      simp only [hcap, if_false]
+      have hge : (encTL typ ++ (encTL v.length ++ (v ++ u'))).length ≥ tlLen typ + tlLen v.length + v.length := by
         simp [encTL_length]; omega
       simp only [hge, if_true]
-      have hneg : ¬ (((tlLen typ + tlLen v.length + v.length : Nat) : Int) < 0) := by omega
-      simp only [hneg, if_false, Int.toNat_natCast]
-      have hz : ¬ (tlLen typ + tlLen v.length + v.length = 0) := by omega
-      simp only [hz, if_false]
       have hre : encTL typ ++ (encTL v.length ++ (v ++ u')) = (encTL typ ++ (encTL v.length ++ v)) ++ u' := by
         simp [List.append_assoc]
       rw [hre, ← hblen]
@@ -99,13 +94,12 @@ theorem parseLoop_block (b u' : Bytes) (hb : Blk b) :
 theorem parseLoop_partial (b u z : Bytes) (hb : Blk b) (hz : z ≠ []) (hu : u ++ z = b) :
     parseLoop u = ([], u, Status.more) := by
   obtain ⟨⟨typ, v, htyp, hbeq⟩, hlen⟩ := hb
-  have hvlen : v.length < 4611686018427387904 := by
-    have := maxPkt_small; rw [hbeq] at hlen; simp at hlen; omega
-  have hv64 : v.length < 2 ^ 64 := by omega
-  have hsz := tlvSize_exact typ v.length hvlen
-  have hzl : 0 < z.length := List.length_pos_iff.mpr hz
   have hblen : b.length = tlLen typ + tlLen v.length + v.length := by
     rw [hbeq]; simp [encTL_length]; omega
+  have hvlen : v.length ≤ maxPkt := by omega
+  have hv64 : v.length < 2 ^ 64 := by have := maxPkt_small; omega
+  have hcap : ¬ v.length > cap := by have := maxPkt_lt_cap; omega
+  have hzl : 0 < z.length := List.length_pos_iff.mpr hz
   have hul : u.length + z.length = b.length := by rw [← hu]; simp
   rw [parseLoop]
   split
@@ -122,8 +116,8 @@ theorem parseLoop_partial (b u z : Bytes) (hb : Blk b) (hz : z ≠ []) (hu : u +
       have e2 := decTL_append h2 z
       rw [← hr1, decTL_encTL v.length hv64 v] at e2
       simp at e2; obtain ⟨rfl, _⟩ := e2
-      simp only [hsz]
-      have hlt : ¬ ((u.length : Int) ≥ ((tlLen typ + tlLen v.length + v.length : Nat) : Int)) := by omega
+      simp only [hcap, if_false]
+      have hlt : ¬ (u.length ≥ tlLen typ + tlLen v.length + v.length) := by omega
       simp only [hlt, if_false]
       have : ¬ (u.length > maxPkt) := by omega
       simp [this]
@@ -169,8 +163,6 @@ theorem parseLoop_stream (bs : List Bytes) (hwf : ∀ b ∈ bs, Blk b) :
       refine ⟨k + 1, rest, ?_, by simpa using hr, by simpa using hl⟩
       rw [hu, parseLoop_block b c' hb, hp]; simp
 
-theorem maxPkt_lt_cap : maxPkt < cap := by decide
-theorem maxPkt_pos : 0 < maxPkt := by decide
 
 /-- invariant between two reads: nothing is parked in front of the unread bytes, and the unread
     bytes are a proper prefix of the next block -/
@@ -210,10 +202,10 @@ theorem onRead_stream (s : St) (bs : List Bytes) (hwf : ∀ b ∈ bs, Blk b)
   refine ⟨k, ?_, ?_, ?_, ?_⟩
   · simp [onRead, hp]
   · simp [onRead, hp]
-  · simp only [onRead, hp, hrest, if_true]
+  · simp only [onRead, hp, Nat.le_of_lt hrest, if_true]
     refine ⟨rfl, hl, ?_⟩
     intro hd; rw [hd] at hr; simp at hr; exact hr.1
-  · simp only [onRead, hp, hrest, if_true]; exact hr
+  · simp only [onRead, hp, Nat.le_of_lt hrest, if_true]; exact hr
 
 def scriptSize (script : List Bytes) : Nat := (script.map List.length).sum + script.length
 
